@@ -498,6 +498,66 @@ impl Input for SimSlice {
 
 // ---------------------------------------------------------------------------------------------
 
+/// An adapter with its OWN buffer accounting over a real back-end (a metering / logging / tee
+/// adapter as a user would write it): it reports as buffered exactly what the scanner asked to
+/// look ahead and has not consumed yet, forwards the required methods only, and leaves the
+/// provided ones to the trait defaults. The scanner therefore takes its "buffer is empty" paths
+/// (raw reads) on a back-end that never takes them by itself.
+pub struct Metered<I: Input> {
+    inner: I,
+    avail: usize,
+}
+
+impl<I: Input> Metered<I> {
+    pub fn new(inner: I) -> Self {
+        Metered { inner, avail: 0 }
+    }
+}
+
+impl<I: Input> Input for Metered<I> {
+    fn lookahead(&mut self, count: usize) {
+        tick_op(1, count as u64);
+        self.inner.lookahead(count);
+        self.avail = self.avail.max(count);
+    }
+    fn buflen(&self) -> usize {
+        tick_op(2, 0);
+        self.avail
+    }
+    fn bufmaxlen(&self) -> usize {
+        self.inner.bufmaxlen()
+    }
+    fn raw_read_ch(&mut self) -> char {
+        tick_op(4, 0);
+        self.inner.raw_read_ch()
+    }
+    fn raw_read_non_breakz_ch(&mut self) -> Option<char> {
+        tick_op(5, 0);
+        probe(Probe::RawReadPath);
+        self.inner.raw_read_non_breakz_ch()
+    }
+    fn skip(&mut self) {
+        tick_op(6, 0);
+        self.inner.skip();
+        self.avail = self.avail.saturating_sub(1);
+    }
+    fn skip_n(&mut self, count: usize) {
+        tick_op(7, count as u64);
+        self.inner.skip_n(count);
+        self.avail = self.avail.saturating_sub(count);
+    }
+    fn peek(&self) -> char {
+        tick_op(8, 0);
+        self.inner.peek()
+    }
+    fn peek_nth(&self, n: usize) -> char {
+        tick_op(9, n as u64);
+        self.inner.peek_nth(n)
+    }
+}
+
+// ---------------------------------------------------------------------------------------------
+
 /// S1, run-length form: a stream described as (character, count) segments, so that it can be
 /// billions of characters long. The bulk operations of the `Input` trait (`skip_while_non_breakz`,
 /// `skip_while_blank`, `skip_n`) jump over a segment in one step, as the string input jumps over
@@ -672,13 +732,15 @@ pub enum InputKind {
     Slice(usize),
     /// `SimRle`: the case text is a run-length notation of the stream.
     Rle,
+    /// `Metered<StrInput>`: an adapter with its own buffer accounting over the string input.
+    MeteredStr,
 }
 
 impl InputKind {
     /// What the input reports as `bufmaxlen()` (the scanner sizes its scalar buffers by it).
     pub fn capacity(&self) -> usize {
         match self {
-            InputKind::Str | InputKind::Rle => 128,
+            InputKind::Str | InputKind::Rle | InputKind::MeteredStr => 128,
             InputKind::Buffered | InputKind::BufferedBare => 16,
             InputKind::Ring(c, _) | InputKind::Slice(c) => *c,
         }
@@ -691,6 +753,7 @@ impl InputKind {
             InputKind::Ring(c, p) => format!("ring:{c}:{}", p.name()),
             InputKind::Slice(c) => format!("slice:{c}"),
             InputKind::Rle => "rle".into(),
+            InputKind::MeteredStr => "metered-str".into(),
         }
     }
     pub fn parse(s: &str) -> Option<InputKind> {
@@ -705,12 +768,13 @@ impl InputKind {
             )),
             "slice" => Some(InputKind::Slice(parts.get(1)?.parse().ok()?)),
             "rle" => Some(InputKind::Rle),
+            "metered-str" => Some(InputKind::MeteredStr),
             _ => None,
         }
     }
     pub fn cap(&self) -> usize {
         match self {
-            InputKind::Str | InputKind::Rle => 128,
+            InputKind::Str | InputKind::Rle | InputKind::MeteredStr => 128,
             InputKind::Buffered | InputKind::BufferedBare => 16,
             InputKind::Ring(c, _) | InputKind::Slice(c) => *c,
         }
